@@ -144,6 +144,58 @@ pub fn cmd_child(arg: &str) {
                     if live && got.as_deref() != Some(&rt.print()) { problems.push("print differs from Rust".to_string()); }
                     if got.is_some() { "value" } else { "error" }
                 }
+                "authorize_fail_policy" | "authorize_fail_nopolicy" => {
+                    if !live {
+                        if c::authorizer_authorize(None) { "value" } else { "error" }
+                    } else {
+                        // a token whose block check fails, an authorizer whose own check fails, a policy that matches or not
+                        let pol = if name == "authorize_fail_policy" { "allow if true" } else { "allow if nope(1)" };
+                        let mut blk = c::create_block();
+                        let chk = CString::new("check if right(\"file2\")").unwrap();
+                        assert!(c::block_builder_add_check(Some(&mut blk), chk.as_ptr()));
+                        let kp3 = c::key_pair_new(SEED3.as_ptr(), 32, calg(balg)).expect("kp3");
+                        let tf = c::biscuit_append_block(Some(&token0), Some(&blk), Some(&kp3)).expect("append failing block");
+                        let mut ab = c::authorizer_builder().expect("authorizer_builder");
+                        let ac = CString::new("check if nope(2)").unwrap();
+                        assert!(c::authorizer_builder_add_check(Some(&mut ab), ac.as_ptr()));
+                        let p = CString::new(pol).unwrap();
+                        assert!(c::authorizer_builder_add_policy(Some(&mut ab), p.as_ptr()));
+                        // the same through the Rust API (generous limits: only the error details are compared)
+                        let kp3r = KeyPair::new_with_rng(ralg(balg), &mut StdRng::from_seed(SEED3));
+                        let rtf = rs.token0.append_with_keypair(&kp3r, BlockBuilder::new().check("check if right(\"file2\")").unwrap()).unwrap();
+                        let rerr = biscuit_auth::builder::AuthorizerBuilder::new().check("check if nope(2)").unwrap().policy(pol).unwrap()
+                            .limits(crate::auth::big_limits()).build(&rtf).unwrap().authorize();
+                        use biscuit_auth::error::{FailedCheck, Logic, Token};
+                        let rchecks: Vec<FailedCheck> = match rerr {
+                            Err(Token::FailedLogic(Logic::Unauthorized { checks, .. })) | Err(Token::FailedLogic(Logic::NoMatchingPolicy { checks })) => checks,
+                            o => { problems.push(format!("the Rust operation gives {o:?}")); vec![] }
+                        };
+                        match c::authorizer_builder_build(Some(ab), &tf) {
+                            Some(mut a) => {
+                                let ok = c::authorizer_authorize(Some(&mut a));
+                                let timed_out = err_kind() == c::ErrorKind::Timeout as u32;
+                                if ok { problems.push("authorize succeeded, the Rust operation fails".to_string()); }
+                                if !ok && !timed_out {
+                                    let n = c::error_check_count();
+                                    if n as usize != rchecks.len() { problems.push(format!("error_check_count {n}, the Rust error carries {}", rchecks.len())); }
+                                    for (i, fc) in rchecks.iter().enumerate() {
+                                        let (want_auth, want_block, want_id, want_rule) = match fc {
+                                            FailedCheck::Block(b) => (false, b.block_id as u64, b.check_id as u64, b.rule.clone()),
+                                            FailedCheck::Authorizer(a) => (true, u64::MAX, a.check_id as u64, a.rule.clone()),
+                                        };
+                                        let i = i as u64;
+                                        if c::error_check_is_authorizer(i) != want_auth { problems.push(format!("error_check_is_authorizer({i}) differs from the Rust error")); }
+                                        if !want_auth && c::error_check_block_id(i) != want_block { problems.push(format!("error_check_block_id({i}) = {}, the Rust error says {want_block}", c::error_check_block_id(i))); }
+                                        if c::error_check_id(i) != want_id { problems.push(format!("error_check_id({i}) = {}, the Rust error says {want_id}", c::error_check_id(i))); }
+                                        if cstr(c::error_check_rule(i)).as_deref() != Some(&want_rule) { problems.push(format!("error_check_rule({i}) differs from the Rust error")); }
+                                    }
+                                }
+                                if ok { "value" } else { "error" }
+                            }
+                            None => { problems.push("authorizer_builder_build failed".to_string()); "error" }
+                        }
+                    }
+                }
                 "authorize" => {
                     if live {
                         let mut ab = c::authorizer_builder().expect("authorizer_builder");
@@ -250,7 +302,7 @@ pub fn cmd_child(arg: &str) {
                 if kind != w { problems.push(format!("the Rust operation fails with error kind {w}, the error channel holds {kind}")); }
             }
             // the C API cannot change the default 1 ms time limit: a Timeout under load is not a finding
-            let timeout = name == "authorize" && (kind == c::ErrorKind::Timeout as u32 || msg.as_deref().map(|m| m.contains("imeout")).unwrap_or(false));
+            let timeout = name.starts_with("authorize") && (kind == c::ErrorKind::Timeout as u32 || msg.as_deref().map(|m| m.contains("imeout")).unwrap_or(false));
             println!("{}", json!({"name": name, "out": out, "err_kind": kind, "err_msg": msg, "problems": problems, "timeout": timeout}));
         }
     }
@@ -293,6 +345,7 @@ fn replay_case(idx: usize, case: &Value) -> Value {
                             "InvalidArgument" => kind == 1,
                             _ => kind > 1,
                         };
+                        clock_noise |= kind == c::ErrorKind::Timeout as u64;
                         clock_noise |= l["timeout"].as_bool().unwrap_or(false);
                         if !ok && !clock_noise {
                             problems.push(format!("call {desc}: error channel holds kind {kind} ({}), the spec says {want_err}", l["err_msg"]));
